@@ -101,7 +101,7 @@ def fresh_value(ex, base, t):
 class Run:
   """One symbolic execution of a repo function with fresh parameters."""
 
-  def __init__(self, key, closure=None, invariants=None, counters=(), args=None, contracts=None, unroll_limit=40, pre=None, fast=False, setup=None):
+  def __init__(self, key, closure=None, invariants=None, counters=(), args=None, contracts=None, unroll_limit=40, pre=None, fast=False, setup=None, arg_types=None):
     self.key = key
     self.info = extract.get_func(key)
     self.ex = Exec()
@@ -123,6 +123,8 @@ class Run:
         v = args[a.arg]
       elif a.arg in alias and alias[a.arg] in self.params:
         v = self.params[alias[a.arg]]  # the launch site passes the same array for both formals
+      elif arg_types and a.arg in arg_types:
+        v = fresh_value(self.ex, a.arg, arg_types[a.arg])
       else:
         if a.annotation is None:
           raise Unsupported(f"parameter {a.arg} of {key} has no annotation")
@@ -224,3 +226,105 @@ def eval_contract_expr(ex, fr, text, extra_env, params=None, result=None):
     ex.contract_mode = saved_mode
     ex.st.pc = saved_pc
     del ex.st.log[n:]
+
+
+class FuncContract:
+  """Modular call: at a call of `key` the caller proves `requires` (a side obligation under its own
+  path condition) and may assume `ensures` about a FRESH result -- the callee's body is not looked at.
+  The same requires/ensures texts are proved against the callee's body by `verify()` (so a change
+  inside the callee is noticed exactly when it breaks the callee's own contract).
+  Texts are python expressions over the callee's parameter names and `result`."""
+
+  def __init__(self, key, requires=(), ensures=(), defs=None, ret=None, ghosts=None, witness=None):
+    self.key = key
+    # ghosts: existentially quantified result variables of the ensures clauses (name -> kind). The caller gets a
+    # fresh symbol per call; verify() proves the clauses for the WITNESS terms given in `witness` (texts over the
+    # callee's parameters and locals at its exit).
+    self.ghosts = dict(ghosts or {})
+    self.witness = dict(witness or {})
+    self.param_types = {}  # generic (Any) parameters: the vector type the contract is stated and verified for
+    self.ret = ret  # result type name(s) for functions without a return annotation (checked by verify(): the body must return that shape)
+    self.requires = list(requires)
+    self.ensures = list(ensures)
+    self.info = extract.get_func(key)
+    self.defs = defs or {}
+    self.uses = 0
+
+  def _bind(self, ex, args, kw):
+    node = self.info.node
+    params = [a.arg for a in node.args.args]
+    vals = dict(zip(params, args))
+    vals.update(kw)
+    if len(vals) != len(params):
+      raise Unsupported(f"arity mismatch calling contract {self.key}")
+    return vals
+
+  def _ret_type(self):
+    r = self.info.node.returns
+    if r is None and self.ret is not None:
+      ts = [vec_type_by_name(n) or {"float": T_FLOAT, "int": T_INT, "bool": T_BOOL}[n] for n in (self.ret if isinstance(self.ret, (list, tuple)) else [self.ret])]
+      return ts if isinstance(self.ret, (list, tuple)) else ts[0]
+    if r is None:
+      raise Unsupported(f"contracted function {self.key} has no return annotation")
+    if isinstance(r, ast.Subscript) and ast.unparse(r.value).split(".")[-1] == "Tuple":
+      elts = r.slice.elts if isinstance(r.slice, ast.Tuple) else [r.slice]
+      return [parse_type(x, self.info.module) for x in elts]
+    return parse_type(r, self.info.module)
+
+  def apply(self, ex, args, kw, fr, e):
+    vals = self._bind(ex, args, kw)
+    self.uses += 1
+    n = next(ex.fresh_ctr)
+    cfr = Frame(self.info, closure={})
+    cfr.env = dict(vals)
+    pc = [h for h in ex.st.pc if h is not True] + [ex.active(fr)]
+    caller = fr.info.key if fr.info is not None else "?"
+    for i, text in enumerate(self.requires):
+      g = tobool(eval_contract_expr(ex, cfr, text, {}))
+      ex.side.append((f"{caller}@call:{self.key.split(':')[-1]}@{getattr(e, 'lineno', 0)}#requires.{i}", [h for h in pc if h is not True], zb(g), len(ex.assumes)))
+    rt = self._ret_type()
+    base = f"{self.key.split(':')[-1]}!ret{n}"
+    if isinstance(rt, list):
+      res = tuple(ex.fresh_of_type(f"{base}.{i}", t) for i, t in enumerate(rt))
+    else:
+      res = ex.fresh_of_type(base, rt)
+    head = zb(zand(*pc)) if pc else True
+    genv = {g: ex.fresh(f"{base}.{g}", kind) for g, kind in self.ghosts.items()}
+    for text in self.ensures:
+      f = tobool(eval_contract_expr(ex, cfr, text, genv, result=res))
+      ex.assume(zb(f) if head is True else z3.Implies(head, zb(f)))
+    return res
+
+  def verify(self, prefix=None, contracts=None, timeout_ms=None, pre=None, lemmas=(), chain=False, cases=None):
+    """obligations: the callee's body satisfies its own contract.
+    lemmas: algebraic identities (texts over the parameters / result) that are each proved VALID on their own,
+    from no hypotheses at all, and then handed to the proofs of the ensures clauses (the nonlinear solver does
+    not find e.g. Lagrange's identity by itself)."""
+    R = Run(self.key, contracts=contracts or {}, pre=list(self.requires) + list(pre or []), arg_types={k: vec_type_by_name(v) for k, v in self.param_types.items()})
+    name = prefix or self.key.split(":")[-1]
+    out = [R.obligation(f"{name}#canary", z3.BoolVal(False), expect="refutable", kind="vacuity-canary")]
+    for g in self.ghosts:
+      R.qvars[g] = R.term(self.witness[g])
+    lem = []
+    for i, text in enumerate(lemmas):
+      t = zb(tobool(R.term(text)))
+      lem.append(t)
+      out.append(Obligation(f"{name}#lemma.{i}", [], t, func=self.key, kind="lemma", meta={"function": self.key, "source_hash": R.info.source_hash, "goal": "identity (valid without hypotheses): " + text[:160]}))
+    proved = []
+    for i, text in enumerate(self.ensures):
+      m = {"goal": text}
+      if timeout_ms:
+        m["timeout_ms"] = timeout_ms
+      # chain: clause i may use clauses 0..i-1 (each of which is itself an obligation of this run)
+      # cases: an exhaustive case split (checked: the disjunction of the cases is itself an obligation); each clause is
+      # proved once per case, which lets if-then-else terms on the case condition collapse before the solver runs
+      if cases:
+        for ci, ctext in enumerate(cases):
+          out.append(R.obligation(f"{name}#ensures.{i}[case{ci}]", text, meta=dict(m, case=ctext), kind="contract", extra_assume=[ctext] + lem + (proved if chain else [])))
+      else:
+        out.append(R.obligation(f"{name}#ensures.{i}", text, meta=m, kind="contract", extra_assume=lem + (proved if chain else [])))
+      proved.append(zb(tobool(R.term(text))))
+    if cases:
+      out.append(R.obligation(f"{name}#cases_exhaustive", z3.Or(*[zb(tobool(R.term(c))) for c in cases]), kind="contract", meta={"goal": "the case split is exhaustive"}))
+    out += R.side_obligations(name + "#")
+    return out
